@@ -1060,6 +1060,7 @@ func runE2E(c *corr.Ctx) {
 		}
 	}
 	runMulti(c)
+	runSwitches(c)
 	runAdmission(c)
 	runClientSide(c)
 }
@@ -1068,6 +1069,8 @@ func replayE2E(c *corr.Ctx, in *Input) {
 	switch in.Kind {
 	case "e2e":
 		runSession(c, in.E2E, "replay")
+	case "switch":
+		runSwitchCase(c, in.Switch, "switch-replay")
 	case "multi":
 		runMultiCase(c, in.Multi, "multi-replay")
 	case "setup":
